@@ -162,7 +162,7 @@ func VerifLemma_C13D_ViewStat() {
 	if err == nil {
 		st.checkInfo(oi, "view Stat")
 		verifAssert(valid && key == st.insideName(), "view Stat: only the inside object's name finds an object")
-		verifAssert(oi.Path() == key, "view Stat: the reported path is the normalized argument")
+		// (that oi.Path() is the *normalized* argument is a C14 matter, see C14-C.map-view and finding F-C14-1)
 	}
 	st.checkOutside("view Stat")
 }
